@@ -10,7 +10,8 @@ from .tape import Tape, derive_seed
 SCENARIOS = {
     "C14": [("heap", "sim.heapsim", "run", 1)],
     "C09": [("twin", "sim.c09", "run", 1)],
-    "C11": [("files", "sim.c11", "run_files", 2), ("files_faults", "sim.c11", "run_files_faults", 2)],
+    "C11": [("files", "sim.c11", "run_files", 2), ("files_faults", "sim.c11", "run_files_faults", 2),
+            ("store", "sim.c11", "run_store", 1)],
 }
 
 
